@@ -89,7 +89,8 @@ func runC08(c *Ctx) {
 			// lowering the NS deadline by the DS deadline, builtin min); the
 			// folded candidates are what the origin clauses below look at
 			terms := c.c08Fold("C08-R1", "C08-R1|processDelegation|lease is the minimum", "leaseDeadline", []c08Alt{{Val: lease, At: mc}}, c08FoldOpt{})
-			leaves := c08TermExprs(terms)
+			// X.Add(min(a, b)) is the pair of candidates X.Add(a), X.Add(b); minNonZero(a, b) the pair a, b
+			leaves := c08SplitMinTerms(c08TermExprs(terms), timeAdd, minNonZero)
 			kinds := map[string]bool{}
 			okOrigin := len(leaves) > 0
 			for _, l := range leaves {
@@ -107,11 +108,17 @@ func runC08(c *Ctx) {
 					continue
 				}
 				secs, ok := c08SecondsOf(ls.Args[1])
+				constDur, isConstDur := constInt(ls.Args[1])
 				switch {
 				case ok && FieldIs(nsTTL)(secs):
 					kinds["ns"] = true
 				case ok && CallTo(minRRSetTTL)(secs):
 					kinds["ds"] = true
+				case isConstDur && constDur > 0:
+					// a constant candidate of a minimum can only shorten the lease: the
+					// hold ceiling (its presence and size are C08-R10); its observation
+					// instant is held to the same "before validation" clause below
+					kinds["ceiling"] = true
 				default:
 					okOrigin = false
 					c.violation("C08-R1", kOrigin, instrPos(mc), "lease duration is not seconds(nsInfo.nsTTL) or seconds(minRRSetTTL(DS)): "+trunc(ls.Args[1].String(), 200))
